@@ -85,6 +85,7 @@ func mergeMap(a, b string) string {
 type tuple struct {
 	S, Wr      int
 	M, W, X, R mask
+	Add        bool // Collection.Add of an item that is not there yet (S is -1: nothing stored under that id)
 	U          mask // "more update paths": added to a non-nil update mask; a nil update mask stays "all writable fields"
 	XAll       bool
 	Coll       bool
@@ -98,6 +99,9 @@ func (t tuple) maskKey() string {
 	u := ""
 	if t.U != nil {
 		u = fmt.Sprintf(" more-update=%v", t.U)
+	}
+	if t.Add {
+		u += " via Collection.Add(absent id)"
 	}
 	return fmt.Sprintf("M=%v%s W=%v extra=%s reset=%v", t.M, u, t.W, x, t.R)
 }
@@ -130,8 +134,10 @@ func newTarget(coll bool, w *fieldmaskpb.FieldMask, stored proto.Message) target
 
 func (g target) get(id string) proto.Message {
 	if g.c != nil {
-		m, _ := g.c.Get(id)
-		return m
+		if m, ok := g.c.Get(id); ok {
+			return m
+		}
+		return &lib.T{} // an item that is not there reads as the empty message
 	}
 	if m := g.v.Get(); m != nil && m.ProtoReflect().IsValid() {
 		return m
@@ -148,6 +154,9 @@ func check(t tuple) (string, string) {
 	var stored proto.Message
 	if t.S >= 0 {
 		stored = proto.Clone(cat[t.S])
+	}
+	if t.Add {
+		return step(newTarget(true, w, &lib.T{}), "new", t)
 	}
 	return step(newTarget(t.Coll, w, stored), "id", t)
 }
@@ -204,7 +213,9 @@ func step(g target, id string, t tuple) (string, string) {
 	func() {
 		defer func() { panicked = recover() }()
 		before = lib.Leaves(g.get(id))
-		if g.c != nil {
+		if g.c != nil && t.Add {
+			_, err = g.c.Add(id, written, wopts...)
+		} else if g.c != nil {
 			_, err = g.c.Update(id, written, wopts...)
 		} else {
 			_, err = g.v.Set(written, wopts...)
@@ -507,7 +518,8 @@ func main() {
 			x   mask
 			all bool
 		}{{nil, false}, {mask{"default_string"}, false}, {nil, true}}
-		Rs := []mask{nil, {"default_string"}, {"default_nested_message.a"}, {"default_foreign_message"}}
+		// (the last one: a field named together with one of its own parts is named)
+		Rs := []mask{nil, {"default_string"}, {"default_foreign_message", "default_foreign_message.c"}, {"default_nested_message.a"}, {"default_foreign_message"}}
 		if !s.Thorough {
 			Rs = Rs[:3]
 		}
@@ -527,11 +539,12 @@ func main() {
 								if !s.Thorough && S < 0 && (Wr+mi+ri)%2 != 0 && Wr != n-1 {
 									continue
 								}
-								for _, coll := range []bool{false, true} {
-									if coll && (S < 0 || (S+Wr)%5 != 0) {
+								for ci, coll := range []bool{false, true, true} {
+									add := ci == 2 // the third round: a Collection.Add of an absent item, where S=-1 stands for "nothing there"
+									if (coll && !add && (S < 0 || (S+Wr)%5 != 0)) || (add && S >= 0) {
 										continue
 									}
-									t := tuple{S: S, Wr: Wr, M: M, W: W, X: X.x, XAll: X.all, R: R, Coll: coll}
+									t := tuple{S: S, Wr: Wr, M: M, W: W, X: X.x, XAll: X.all, R: R, Coll: coll, Add: add}
 									s.Eval(1)
 									s.Trans(1)
 									k, m := check(t)
